@@ -35,13 +35,14 @@ claimed = {
          "ESC timing and the cursor-position-report hand-off between goroutines are not decided (channels abstracted; extractCursorPos trusted under the hypothesis that no report is in flight); convert-meta conversion of a chunk excluded (cfg == nil); 4 known findings (ReadKey ignores buffered keys / drops the rest of its chunk; non-EOF read error busy-loops)"),
  "C11": ("DESIGN.md §4 C11", "terminal mode only: Readline proved against ensures_always tmode() == old(tmode()) over a ghost termios: at every return and, for every call of its body that may panic (a bound command included), after the deferred calls armed at that point have run on an arbitrary heap; the saved mode cannot change in between because term.State.termios is a final field (no store outside construction anywhere in the module, checked over the SSA)",
          "MakeRaw / Restore trusted against the ghost (two ioctls; Restore assumed to succeed, Readline ignores its error); the cursor row and the cursor style after return need a terminal emulator as oracle and are not covered (same reason as C04); a panic raised by a deferred call itself is not followed; signals / os.Exit not modelled"),
+ "C01": ("DESIGN.md §4 C01", "panic-freedom (every index, slice, nil dereference, type assertion, explicit panic and callee precondition is an obligation) and termination (loop variants, recursion measures, counted loops) of the functions under contract, for every state satisfying their stated preconditions: the kernel (Line, Cursor, Selection, Iterations, key stack, history sources and undo, keymap dispatch, inputrc parser, completion grid, macro engine) and 66 bound commands proved with no annotation beyond the standing shell invariant fullok (30 of them also proved to preserve it)",
+         "scope is the listed functions only: about 110 bound commands (completion, incremental search, accept-line family, dump-*, editor commands) are not covered; that the main loop re-establishes each command's precondition (cursor re-clamped by CheckCommand, components never nil) is A-LOOP; functions marked assume_nopanic are counted for their postconditions only; deadlock / blocked-in-read (goroutines, channels) not decided; termination of uncontracted callees is listed as a gap per call site in the evidence; 6 keyboard-reachable panics fixed, known findings shared with C05 (ReadKey, non-EOF read error spin)"),
 }
 not_applicable = {
  "C04": "needs a VT100 cell-grid interpreter of the emitted byte stream as oracle; contracts on the repository's functions cannot state what a terminal shows (DESIGN.md §4 C04)",
  "C20": "quantifies over interleavings of the SIGWINCH goroutine / concurrent Printf with the main loop; the VC generator is sequential and there is no lock to attach a guarded_by contract to (DESIGN.md §4 C20)",
 }
 pending = {
- "C01": "not yet claimed: contracts for the command layer are still being written (DESIGN.md §7 build order)",
  "C10": "not yet claimed: assumed-library layer not reached yet (DESIGN.md §4 C10)",
 }
 import os, sys
